@@ -520,6 +520,27 @@ async def main(args):
             if origins:
                 await origins.stop()
             chain.cleanup(args.keep)
+    # ---- a buffer larger than a pipe (splice moves at most one pipe-full per call, so every read is "short"): only the
+    # back-pressure-before-FIN scenarios, on single-hop and two-hop paths
+    chain = Chain(args.bin, io={"bufferSize": 262144, "useSplice": True}, tag="c04", timeouts={"idle": IDLE, "udp": IDLE}).build()
+    origins = None
+    try:
+        await chain.start()
+        origins = await C04Origins(args.seed, chain.oports).start()
+        batch = []
+        for lk, ck in (("http", "direct"), ("socks5", "direct"), ("reverse", "direct"), ("http", "h"), ("reverse", "s5")):
+            for sc in (8, 9):
+                for small in (False, True):
+                    uid += 1
+                    batch.append((uid, lk, ck, sc, (6 << 20) if sc == 8 else 5000, 5000 if sc == 8 else (6 << 20), small))
+        obs = await asyncio.gather(*[scenario(out, chain, origins, args.seed, u, lk, ck, sc, "splice-256k", n, m) for (u, lk, ck, sc, n, m, small) in batch])
+        dead = chain.dead()
+        if dead:
+            out.violation("proxy process died during close scenarios", {"dead": dead})
+    finally:
+        if origins:
+            await origins.stop()
+        chain.cleanup(args.keep)
     # differential: same scenario, same logical observations in both I/O modes
     diffs = 0
     for u, by in results.items():
